@@ -40,7 +40,7 @@ def make_trait_def(name):
 def new_model(uid):
     return {"uid": uid, "value": 0, "ro": UNSET, "scratch": 7, "tags": [], "stags": [],
             "grid": [], "table": {}, "group": set(), "child": None, "friend": None,
-            "children": [], "members": set(), "sp": 0, "pv": UNSET}
+            "children": [], "members": set(), "sp": 0, "blob": None, "pv": UNSET}
 
 
 class Prop:
@@ -155,7 +155,7 @@ class Prop:
             return {"k": r.choice(["members_add", "members_add", "members_discard"]), "o": o,
                     "v": r.randrange(npool)}
         if x < 0.98:
-            return {"k": r.choice(["sp", "pv", "pv"]), "o": o, "v": fresh()}
+            return {"k": r.choice(["sp", "pv", "pv", "blob", "blob"]), "o": o, "v": fresh()}
         return {"k": "bump", "o": o}
 
     # ------------------------------------------------------------------ execution
@@ -246,6 +246,7 @@ class Prop:
                 [c.uid for c in d.get("children", ())],
                 sorted(c.uid for c in d.get("members", ())),
                 d.get("_spv", 0),
+                (list(d["blob"]) if isinstance(d.get("blob"), list) else None),
                 # the prototyped attribute by what it READS as (a copy may or may not turn
                 # the prototype's value into a local one): local value, else prototype's
                 (d["pv"] if "pv" in d else getattr(d.get("child"), "value", "<unreadable>")))
@@ -261,7 +262,7 @@ class Prop:
                 list(m["tags"]), list(m["stags"]), [list(r) for r in m["grid"]],
                 {a: list(b) for a, b in m["table"].items()}, set(m["group"]),
                 u(m["child"]), u(m["friend"]), list(m["children"]), sorted(m["members"]),
-                m["sp"], self.pv_reads(m))
+                m["sp"], m["blob"], self.pv_reads(m))
 
     def pv_reads(self, m):
         if isinstance(m["pv"], tuple) and m["pv"][0] == "either":
@@ -293,7 +294,7 @@ class Prop:
         self.env.oracle_evals += 1
         if got != want:
             names = ["value", "ro", "tags", "stags", "grid", "table", "group", "child", "friend",
-                     "children", "members", "sp", "pv"]
+                     "children", "members", "sp", "blob", "pv"]
             diff = [(n, a, b) for n, a, b in zip(names, got, want) if a != b]
             raise Violation("C14.state", "%s: R%d holds %s" % (
                 what, m["uid"], "; ".join("%s=%r (model %r)" % d for d in diff[:3])), step)
@@ -422,7 +423,7 @@ class Prop:
         self.env.oracle_evals += 1
         if got != want:
             names = ["value", "ro", "tags", "stags", "grid", "table", "group", "child", "friend",
-                     "children", "members", "sp", "pv"]
+                     "children", "members", "sp", "blob", "pv"]
             diff = [(n, a, b) for n, a, b in zip(names, got, want) if a != b]
             raise Violation("C14.state", "%s: copy of R%d holds %s" % (
                 mode, m["uid"], "; ".join("%s=%r (model %r)" % d for d in diff[:3])), step)
@@ -449,6 +450,36 @@ class Prop:
                     raise Violation("C14.copy-identity", "%s: a member of the copied Set is the "
                                     "original's member object (R%d), not a copy"
                                     % (mode, el.uid), step)
+        if mode in ("clone_deep", "deepcopy"):
+            # ... and so are the objects nested below it, every one of them (the second
+            # and third child as much as the first): none shares a container with the
+            # object it was copied from
+            seen = set()
+            todo = [(x, c, 0)]
+            while todo:
+                xo, co, depth = todo.pop()
+                if id(xo) in seen or depth > 3:
+                    continue
+                seen.add(id(xo))
+                pairs = []
+                if xo.__dict__.get("child") is not None and co.__dict__.get("child") is not None:
+                    pairs.append((xo.__dict__["child"], co.__dict__["child"]))
+                pairs.extend(zip(xo.__dict__.get("children") or (),
+                                 co.__dict__.get("children") or ()))
+                for xn, cn in pairs:
+                    self.env.oracle_evals += 1
+                    if xn is cn:
+                        raise Violation("C14.copy-identity",
+                                        "%s: a nested object (R%d) of the copy is the original's "
+                                        "object, not a copy" % (mode, xn.uid), step)
+                    self.no_shared_containers(xn, cn, mode + " (nested R%d)" % xn.uid, step)
+                    if mode == "clone_deep" and isinstance(xn.__dict__.get("blob"), list) \
+                            and xn.__dict__["blob"] is cn.__dict__.get("blob"):
+                        raise Violation("C14.shared-container",
+                                        "clone_traits(copy='deep'): the list held by the untyped "
+                                        "attribute of nested object R%d is shared between copy "
+                                        "and original" % xn.uid, step)
+                    todo.append((xn, cn, depth + 1))
         # liveness battery on the copy; the originals must not move
         before = [self.snapshot(p) for p in pool]
         cm = self.clone_model(m)
@@ -466,7 +497,8 @@ class Prop:
                 "table": {a: list(b) for a, b in m["table"].items()},
                 "group": set(m["group"]), "child": m["child"], "friend": m["friend"],
                 "children": list(m["children"]), "members": set(m["members"]),
-                "sp": m["sp"], "pv": m["pv"]}
+                "sp": m["sp"], "blob": (None if m["blob"] is None else list(m["blob"])),
+                "pv": m["pv"]}
 
     # the liveness battery -------------------------------------------------------------
     def battery(self, pool, models, step):
@@ -631,6 +663,9 @@ class Prop:
         elif k == "sp":
             _, e = sut(setattr, x, "sp", op["v"])
             m["sp"] = op["v"]
+        elif k == "blob":
+            _, e = sut(setattr, x, "blob", [op["v"], op["v"] + 1])
+            m["blob"] = [op["v"], op["v"] + 1]
         elif k == "pv":
             # a local value for the prototyped attribute (validated by the prototype's trait)
             if m["child"] is None:
